@@ -455,8 +455,12 @@ func report(prop, tier string, seed int, rr *RunResult) int {
 	// `.N/`), so the comparison is made on the name with those ordinals removed.  An edit that moves, duplicates or
 	// merges sites keeps the family; deleting the last site of a kind, a contract clause, a loop or a function does not.
 	presentFam := map[string]bool{}
+	presentFunc := map[string]bool{}
 	for n := range present {
 		presentFam[oblFamily(n)] = true
+		if fn, _ := oblFuncAndKind(n); fn != "" {
+			presentFunc[fn] = true
+		}
 	}
 	var missing []string
 	renamed := 0
@@ -466,6 +470,15 @@ func report(prop, tier string, seed int, rr *RunResult) int {
 		}
 		if present[n] == nil {
 			if presentFam[oblFamily(n)] {
+				renamed++
+				continue
+			}
+			// panic-freedom obligations are named after the source expression they guard (`index:compiled.groups[0]`):
+			// rewriting the expression renames them.  As long as the function still produces obligations in this run
+			// (it has not left the verifier's subset), a vanished site of these kinds is a site that no longer exists,
+			// not a lost guarantee.  Contract-derived obligations (post, invariants, ghost assertions, frame, grammar)
+			// are never excused this way.
+			if fn, kind := oblFuncAndKind(n); safetyKinds[kind] && presentFunc[fn] {
 				renamed++
 				continue
 			}
@@ -686,4 +699,60 @@ func sortedStrKeysM(m map[string]map[string]string) []string {
 	}
 	sort.Strings(out)
 	return out
+}
+
+var safetyKinds = map[string]bool{"nil": true, "index": true, "slice": true, "typeassert": true, "div0": true, "makeslice": true,
+	"nilmap": true, "nilfunc": true, "elem-nonnil": true, "elems-nonnil": true}
+
+// oblFuncAndKind splits "file.go:Func/[case:x/][loopN/]kind:detail#n" into the function part and the kind.
+func oblFuncAndKind(n string) (string, string) {
+	i := strings.Index(n, ".go:")
+	if i < 0 {
+		return "", ""
+	}
+	rest := n[i+4:]
+	// the function key ends at the first "/" that is not inside parentheses
+	depth := 0
+	cut := -1
+	for j, c := range rest {
+		switch c {
+		case '(':
+			depth++
+		case ')':
+			depth--
+		case '/':
+			if depth == 0 && cut < 0 {
+				cut = j
+			}
+		}
+		if cut >= 0 {
+			break
+		}
+	}
+	if cut < 0 {
+		return "", ""
+	}
+	fn := n[:i+4] + rest[:cut]
+	tail := rest[cut+1:]
+	// skip case:/loop segments
+	for {
+		k := strings.Index(tail, "/")
+		seg := tail
+		if k >= 0 {
+			seg = tail[:k]
+		}
+		if strings.HasPrefix(seg, "case:") || strings.HasPrefix(seg, "loop") || strings.HasPrefix(seg, "inl.loop") {
+			if k < 0 {
+				return fn, ""
+			}
+			tail = tail[k+1:]
+			continue
+		}
+		break
+	}
+	kind := tail
+	if k := strings.IndexAny(kind, ":#"); k >= 0 {
+		kind = kind[:k]
+	}
+	return fn, kind
 }
